@@ -23,12 +23,39 @@ LETTER = "abc"
 out = []
 seen = set()
 catalogue = {}
+budget = {("c01", "x"): 0, ("c04", "x"): 0, ("c07", "x"): 0}
+
+
+def components(n, code):
+    parent = list(range(n))
+
+    def find(x):
+        while parent[x] != x:
+            x = parent[x]
+        return x
+    for i in range(n):
+        for j in range(n):
+            if (code >> (i * n + j)) & 1:
+                parent[find(i)] = find(j)
+    return len({find(i) for i in range(n)})
 
 
 def h(prop, tier, sem, kind, enc, n, code, q, pres="pl", cert=None, fault=0, checks=None):
     """q: list of argument indices (empty for SE)"""
     if cert is None:
         cert = prop in ("c04",) or (prop == "c07")
+    group = checks or CHECKS[prop]
+    uses_ext = (group in ("CERT",) and (cert or kind == "se")) or (group == "ANSWER" and kind == "se")
+    multi = components(n, code) > 1
+    # measured (DESIGN.md section 2): these need 25-37 GB and 7-10 minutes of CBMC each -> tier x (thorough, one at a time)
+    heavy = sem != "gr" and uses_ext and ((sem in ("co", "pr")) or multi or (n == 3 and len(q) == 2) or pres in ("s1", "s2") and sem in ("co", "pr"))
+    if sem == "st" and n == 2 and code in (8, 9):
+        heavy = False  # the first component has no stable extension: the query ends at the first UNSAT (measured 40 s / 1.5 GB)
+    if heavy:
+        if tier == "t" and prop in ("c04", "c07", "c01") and (prop, "x") in budget and budget[(prop, "x")] >= 4:
+            return  # at most a handful of 8-minute harnesses per property
+        budget[(prop, "x")] = budget.get((prop, "x"), 0) + 1
+        tier = "x"
     qn = "".join(LETTER[i] for i in q) if q else "x"
     name = "%s_%s_%s_%s_%s_n%dg%d_%s_%s%s%s" % (prop, tier, sem, kind, enc, n, code, qn, pres, "_cert" if cert else "", "_f%d" % fault if fault else "")
     if name in seen:
@@ -169,6 +196,10 @@ h("c17", "q", "st", "dc", "def", 2, 0, [0, 1], cert=False, fault=3)
 h("c17", "q", "co", "dc", "aux", 2, 2, [1], cert=False, fault=2)
 h("c17", "q", "st", "se", "def", 2, 6, [], cert=False, fault=2)
 h("c17", "q", "st", "ds", "def", 2, 0, [0], cert=True, fault=3)
+h("c17", "q", "st", "dc", "def", 2, 2, [1], cert=True, fault=2)
+h("c17", "q", "st", "dc", "def", 2, 10, [0], cert=False, fault=2)
+h("c17", "t", "st", "dc", "def", 2, 2, [0], cert=False, fault=2)
+h("c17", "t", "st", "dc", "def", 2, 6, [1], cert=False, fault=2)
 h("c17", "t", "co", "dc", "exp", 2, 14, [0], cert=True, fault=2)
 h("c17", "t", "st", "ds", "def", 2, 6, [1], cert=False, fault=2)
 h("c17", "t", "st", "se", "def", 2, 0, [], cert=False, fault=3)
@@ -178,7 +209,10 @@ for g, q in ((0, [0, 1]), (6, [0]), (10, [1])):
     h("c18", "q", "st", "dc", "def", 2, g, q, cert=True)
 for g, q in ((6, [0]), (14, [0, 1])):
     h("c18", "q", "co", "dc", "aux", 2, g, q, cert=True)
+h("c18", "q", "st", "dc", "def", 2, 2, [1, 1], cert=False)
 h("c18", "q", "st", "ds", "def", 2, 2, [1], cert=False)
+h("c18", "t", "st", "dc", "def", 3, 6, [1, 2], cert=True)
+h("c18", "t", "st", "dc", "def", 2, 14, [1, 1], cert=True)
 h("c18", "q", "st", "se", "def", 2, 0, [], cert=False)
 h("c18", "t", "st", "ds", "def", 2, 0, [0, 1], cert=True)
 h("c18", "t", "co", "dc", "exp", 2, 0, [0, 1], cert=False)
